@@ -124,6 +124,17 @@ fn bitmask_of(a: &AVP, inner: &dyn std::fmt::Debug) -> u32 {
     }
 }
 
+/// A decoded text member, checked: a `String` holding ill-formed UTF-8 (an unchecked conversion
+/// in the decoder) would make every later formatting of it undefined. Where it crosses into the
+/// harness it is replaced by a well-formed description of its octets, so the oracles see an
+/// accepted value that no reference result can equal (the reference rejects ill-formed text).
+fn text(_attr: u16, s: &str) -> String {
+    if std::str::from_utf8(s.as_bytes()).is_err() {
+        return format!("<ill-formed UTF-8 in a decoded String: {}>", crate::report::hex(&s.as_bytes()[..s.len().min(32)]));
+    }
+    s.to_owned()
+}
+
 fn sa(attr: u16, body: SBody) -> SAvp {
     SAvp { attr, hidden: false, body }
 }
@@ -135,7 +146,7 @@ pub fn avp_to_spec(a: &AVP) -> SAvp {
             1,
             SBody::Result {
                 code: u16::from(r.code),
-                err: r.error.as_ref().map(|e| (error_type_code(&e.error_type), e.error_message.clone())),
+                err: r.error.as_ref().map(|e| (error_type_code(&e.error_type), e.error_message.as_ref().map(|m| text(1, m)))),
             },
         ),
         AVP::ProtocolVersion(p) => sa(2, SBody::Version { ver: p.version, rev: p.revision }),
@@ -144,11 +155,11 @@ pub fn avp_to_spec(a: &AVP) -> SAvp {
         AVP::TieBreaker(x) => sa(5, SBody::U64(x.value)),
         AVP::FirmwareRevision(x) => sa(6, SBody::U16(x.value)),
         AVP::HostName(x) => sa(7, SBody::Bytes(x.value.clone())),
-        AVP::VendorName(x) => sa(8, SBody::Str(x.value.clone())),
+        AVP::VendorName(x) => sa(8, SBody::Str(text(8, &x.value))),
         AVP::AssignedTunnelId(x) => sa(9, SBody::U16(x.value)),
         AVP::ReceiveWindowSize(x) => sa(10, SBody::U16(x.value)),
         AVP::Challenge(x) => sa(11, SBody::Bytes(x.value.clone())),
-        AVP::Q931CauseCode(x) => sa(12, SBody::Q931 { code: x.cause_code, msg: x.cause_msg, adv: x.advisory.clone() }),
+        AVP::Q931CauseCode(x) => sa(12, SBody::Q931 { code: x.cause_code, msg: x.cause_msg, adv: x.advisory.as_ref().map(|m| text(12, m)) }),
         AVP::ChallengeResponse(x) => sa(13, SBody::Bytes(x.value.to_vec())),
         AVP::AssignedSessionId(x) => sa(14, SBody::U16(x.value)),
         AVP::CallSerialNumber(x) => sa(15, SBody::U32(x.value)),
@@ -156,9 +167,9 @@ pub fn avp_to_spec(a: &AVP) -> SAvp {
         AVP::MaximumBps(x) => sa(17, SBody::U32(x.value)),
         AVP::BearerType(x) => sa(18, SBody::U32(bitmask_of(a, x))),
         AVP::FramingType(x) => sa(19, SBody::U32(bitmask_of(a, x))),
-        AVP::CalledNumber(x) => sa(21, SBody::Str(x.value.clone())),
-        AVP::CallingNumber(x) => sa(22, SBody::Str(x.value.clone())),
-        AVP::SubAddress(x) => sa(23, SBody::Str(x.value.clone())),
+        AVP::CalledNumber(x) => sa(21, SBody::Str(text(21, &x.value))),
+        AVP::CallingNumber(x) => sa(22, SBody::Str(text(22, &x.value))),
+        AVP::SubAddress(x) => sa(23, SBody::Str(text(23, &x.value))),
         AVP::TxConnectSpeed(x) => sa(24, SBody::U32(x.value)),
         AVP::PhysicalChannelId(x) => sa(25, SBody::Bytes(x.value.to_vec())),
         AVP::InitialReceivedLcpConfReq(x) => sa(26, SBody::Bytes(x.value.clone())),
